@@ -6,11 +6,14 @@ import (
 	"encoding/json"
 	"fmt"
 	"io"
+	"os"
 	"strings"
 	"testing/iotest"
 
 	carv1 "github.com/ipld/go-car"
+	"github.com/ipfs/go-cid"
 	carv2 "github.com/ipld/go-car/v2"
+	"github.com/multiformats/go-multihash"
 
 	"carlab/internal/gen"
 	"carlab/internal/lab"
@@ -21,7 +24,7 @@ import (
 type c02Desc struct {
 	Seed    int64  `json:"seed"`
 	V2      bool   `json:"v2,omitempty"`
-	Family  string `json:"family"` // cuts | flips | random
+	Family  string `json:"family"` // cuts | flips | random | ioerr
 	AllBits bool   `json:"allbits,omitempty"`
 	Only    int    `json:"only,omitempty"` // when >0: replay only this offset+1
 	Big     int    `json:"big,omitempty"`  // when >0: the archive holds one section whose body (cid+data) has this many bytes; cuts/flips are sampled
@@ -34,9 +37,19 @@ type c02Reader struct {
 	hashes  bool // verifies block hashes (flip clause applies)
 	returns bool // returns block bytes (hash oracle applies)
 	run     func(in []byte) (got []refcar.Block, clean bool, err error)
+	sparse  bool // costly kind (goes through a real file): run on the offsets near the payload's end and on every 8th other one
 }
 
-func c02Readers() []c02Reader {
+// c02Readers builds the reader table. With fault >= 0 every source fails with lab.ErrInjectedIO
+// on any access to a byte at offset >= fault (and never reports io.EOF); source kinds that cannot
+// be wrapped that way are left out.
+func c02Readers(fault int64) []c02Reader {
+	base := func(b []byte) lab.Src {
+		if fault >= 0 {
+			return &lab.FailSrc{R: bytes.NewReader(b), N: fault}
+		}
+		return bytes.NewReader(b)
+	}
 	nextO := func(mk func([]byte) io.Reader, opts ...carv2.Option) func([]byte) ([]refcar.Block, bool, error) {
 		return func(in []byte) ([]refcar.Block, bool, error) {
 			br, err := carv2.NewBlockReader(mk(in), opts...)
@@ -113,16 +126,79 @@ func c02Readers() []c02Reader {
 			}
 		}
 	}
-	seekable := func(b []byte) io.Reader { return bytes.NewReader(b) }
-	plain := func(b []byte) io.Reader { return lab.PlainReader{R: bytes.NewReader(b)} }
-	onebyte := func(b []byte) io.Reader { return lab.OneByteReader{R: bytes.NewReader(b)} }
-	buffered := func(b []byte) io.Reader { return bufio.NewReaderSize(bytes.NewReader(b), 64) }
-	stutter := func(b []byte) io.Reader { return &lab.StutterReader{B: b} }                                     // (0,nil) calls, tiny pieces, data+EOF
-	dataErr := func(b []byte) io.Reader { return iotest.DataErrReader(lab.PlainReader{R: bytes.NewReader(b)}) } // last byte comes with io.EOF
-	eofSeek := func(b []byte) io.Reader { return lab.EOFSeeker{R: bytes.NewReader(b)} } // seekable, last bytes come with io.EOF
+	seekable := func(b []byte) io.Reader { return base(b) }
+	plain := func(b []byte) io.Reader { return lab.PlainReader{R: base(b)} }
+	onebyte := func(b []byte) io.Reader { return lab.OneByteReader{R: base(b)} }
+	buffered := func(b []byte) io.Reader { return bufio.NewReaderSize(base(b), 64) }
+	stutter := func(b []byte) io.Reader { return &lab.StutterReader{B: b} }                          // (0,nil) calls, tiny pieces, data+EOF
+	dataErr := func(b []byte) io.Reader { return iotest.DataErrReader(lab.PlainReader{R: base(b)}) } // last byte comes with io.EOF
+	eofSeek := func(b []byte) io.Reader { return lab.EOFSeeker{R: bytes.NewReader(b)} }              // seekable, last bytes come with io.EOF
+	overData := func(skipping bool) func([]byte) ([]refcar.Block, bool, error) {
+		return func(in []byte) ([]refcar.Block, bool, error) {
+			rd, err := carv2.NewReader(base(in))
+			if err != nil {
+				return nil, false, err
+			}
+			dr, err := rd.DataReader()
+			if err != nil {
+				return nil, false, err
+			}
+			br, err := carv2.NewBlockReader(dr)
+			if err != nil {
+				return nil, false, err
+			}
+			var got []refcar.Block
+			for {
+				var c cid.Cid
+				var data []byte
+				if skipping {
+					m, err := br.SkipNext()
+					if err == io.EOF {
+						return got, true, nil
+					}
+					if err != nil {
+						return got, false, err
+					}
+					c = m.Cid
+				} else {
+					b, err := br.Next()
+					if err == io.EOF {
+						return got, true, nil
+					}
+					if err != nil {
+						return got, false, err
+					}
+					c, data = b.Cid(), b.RawData()
+				}
+				got = append(got, refcar.Block{Cid: c.Bytes(), Data: data})
+			}
+		}
+	}
+	inspectFile := func(validate bool) func([]byte) ([]refcar.Block, bool, error) {
+		return func(in []byte) ([]refcar.Block, bool, error) {
+			f, err := os.CreateTemp("", "carlab-c02-*.car")
+			if err != nil {
+				panic(err)
+			}
+			defer os.Remove(f.Name())
+			if _, err := f.Write(in); err != nil {
+				panic(err)
+			}
+			f.Close()
+			rd, err := carv2.OpenReader(f.Name())
+			if err != nil {
+				return nil, false, err
+			}
+			defer rd.Close()
+			if _, err = rd.Inspect(validate); err != nil {
+				return nil, false, err
+			}
+			return nil, true, nil
+		}
+	}
 	inspect := func(validate bool) func([]byte) ([]refcar.Block, bool, error) {
 		return func(in []byte) ([]refcar.Block, bool, error) {
-			rd, err := carv2.NewReader(bytes.NewReader(in))
+			rd, err := carv2.NewReader(base(in))
 			if err != nil {
 				return nil, false, err
 			}
@@ -133,7 +209,7 @@ func c02Readers() []c02Reader {
 			return nil, true, nil
 		}
 	}
-	return []c02Reader{
+	all := []c02Reader{
 		{name: "v2.BlockReader.Next(bytes.Reader)", hashes: true, returns: true, run: next(seekable)},
 		{name: "v2.BlockReader.Next(plain)", hashes: true, returns: true, run: next(plain)},
 		{name: "v2.BlockReader.Next(1-byte reads)", hashes: true, returns: true, run: next(onebyte)},
@@ -154,6 +230,10 @@ func c02Readers() []c02Reader {
 			}
 			return nil, true, nil
 		}},
+		// the block reader over the payload reader of a v2 Reader (for a CARv2 that is a section of the
+		// file whose length is the one the header DECLARES)
+		{name: "v2.BlockReader.Next(Reader.DataReader)", hashes: true, returns: true, run: overData(false)},
+		{name: "v2.BlockReader.SkipNext(Reader.DataReader)", run: overData(true)},
 		{name: "v2.BlockReader.SkipNext(bufio.Reader)", run: skip(buffered)},
 		{name: "v2.BlockReader.SkipNext(bytes.Reader)", run: skip(seekable)},
 		{name: "v2.BlockReader.SkipNext(plain)", run: skip(plain)},
@@ -162,7 +242,7 @@ func c02Readers() []c02Reader {
 		{name: "v2.BlockReader.Next(plain,ZeroLengthSectionAsEOF)", hashes: true, returns: true, run: nextO(plain, carv2.ZeroLengthSectionAsEOF(true))},
 		{name: "v2.BlockReader.SkipNext(bytes.Reader,ZeroLengthSectionAsEOF)", run: skipO(seekable, carv2.ZeroLengthSectionAsEOF(true))},
 		{name: "v2.Reader.Inspect(true,ZeroLengthSectionAsEOF)", hashes: true, run: func(in []byte) ([]refcar.Block, bool, error) {
-			rd, err := carv2.NewReader(bytes.NewReader(in), carv2.ZeroLengthSectionAsEOF(true))
+			rd, err := carv2.NewReader(base(in), carv2.ZeroLengthSectionAsEOF(true))
 			if err != nil {
 				return nil, false, err
 			}
@@ -172,9 +252,11 @@ func c02Readers() []c02Reader {
 			return nil, true, nil
 		}},
 		{name: "v2.Reader.Inspect(true)", hashes: true, run: inspect(true)},
+		{name: "v2.OpenReader(file).Inspect(true)", hashes: true, sparse: true, run: inspectFile(true)},
+		{name: "v2.OpenReader(file).Inspect(false)", sparse: true, run: inspectFile(false)},
 		{name: "v2.Reader.Inspect(false)", run: inspect(false)},
 		{name: "root.CarReader.Next", v1only: true, hashes: true, returns: true, run: func(in []byte) ([]refcar.Block, bool, error) {
-			cr, err := carv1.NewCarReaderWithOptions(bytes.NewReader(in), carv1.WithErrorOnEmptyRoots(false))
+			cr, err := carv1.NewCarReaderWithOptions(base(in), carv1.WithErrorOnEmptyRoots(false))
 			if err != nil {
 				return nil, false, err
 			}
@@ -192,7 +274,7 @@ func c02Readers() []c02Reader {
 		}},
 		{name: "root.LoadCar", v1only: true, hashes: true, returns: true, run: func(in []byte) ([]refcar.Block, bool, error) {
 			rec := &recStore{}
-			_, err := carv1.LoadCar(bg, rec, bytes.NewReader(in))
+			_, err := carv1.LoadCar(bg, rec, base(in))
 			if err != nil {
 				return rec.got, false, err
 			}
@@ -200,13 +282,24 @@ func c02Readers() []c02Reader {
 		}},
 		{name: "root.LoadCar(batch)", v1only: true, hashes: true, returns: true, run: func(in []byte) ([]refcar.Block, bool, error) {
 			rec := &recBatchStore{}
-			_, err := carv1.LoadCar(bg, rec, bytes.NewReader(in))
+			_, err := carv1.LoadCar(bg, rec, base(in))
 			if err != nil {
 				return nil, false, err // a batch store may legitimately have received nothing yet
 			}
 			return rec.got, true, nil
 		}},
 	}
+	if fault < 0 {
+		return all
+	}
+	var keep []c02Reader
+	for _, rd := range all {
+		if strings.Contains(rd.name, "stutter") || strings.Contains(rd.name, "data+EOF") || strings.Contains(rd.name, "EOF with the last") || rd.sparse {
+			continue // these kinds own their bytes; the fault wrapper does not fit under them
+		}
+		keep = append(keep, rd)
+	}
+	return keep
 }
 
 // region classification of every byte offset of an archive
@@ -322,7 +415,7 @@ func runC02(t *mon.T, raw json.RawMessage) {
 	if err := json.Unmarshal(raw, &d); err != nil {
 		panic(err)
 	}
-	readers := c02Readers()
+	readers := c02Readers(-1)
 	if d.Big > 0 {
 		var keep []c02Reader
 		for _, rd := range readers {
@@ -429,6 +522,9 @@ func runC02(t *mon.T, raw json.RawMessage) {
 				if rd.v1only && d.V2 {
 					continue
 				}
+				if rd.sparse && j < pend-400 && j%8 != int(d.Seed&7) {
+					continue
+				}
 				got, clean, _ := rd.run(in)
 				t.Events(1)
 				if rd.returns {
@@ -476,6 +572,9 @@ func runC02(t *mon.T, raw json.RawMessage) {
 					if rd.v1only && d.V2 {
 						continue
 					}
+					if rd.sparse && j%8 != int(d.Seed&7) {
+						continue
+					}
 					got, clean, _ := rd.run(in)
 					t.Events(1)
 					if rd.returns {
@@ -487,6 +586,10 @@ func runC02(t *mon.T, raw json.RawMessage) {
 										"%s returned a block whose bytes do not hash to its CID (bit %d of byte %d flipped, %s)", rd.name, bit, j, reg)
 								} else if !known {
 									t.Cover("hash-unknown-to-reference")
+									if c02NoHasher(c.MhCode) {
+										t.ViolateD(rd.name+"/flip:"+reg+"/returned-block-under-unverifiable-hash-function", map[string]any{"offset": j, "bit": bit, "hash_code": c.MhCode},
+											"%s returned a block whose CID names hash function %#x, for which no implementation exists: nothing can have been verified (bit %d of byte %d flipped, %s)", rd.name, c.MhCode, bit, j, reg)
+									}
 								}
 							}
 						}
@@ -500,6 +603,34 @@ func runC02(t *mon.T, raw json.RawMessage) {
 							checkPrefix(rd, got, "flip:"+reg, j, l.complete[j])
 						}
 					}
+				}
+			}
+		}
+	}
+	if d.Family == "ioerr" {
+		// the SOURCE breaks: every access to a byte at or beyond offset j fails with a non-EOF error.
+		// A reader that hands out block bytes (or validates every block) needs every payload byte, so
+		// with j inside the payload it cannot have reached the end: a clean end would be silent truncation.
+		for j := 0; j < pend; j++ {
+			if d.Only > 0 && j != d.Only-1 {
+				continue
+			}
+			phase := l.cutPhase(j)
+			t.Cover("ioerr:" + kind + ":" + phase)
+			for _, rd := range c02Readers(int64(j)) {
+				if (rd.v1only && d.V2) || !(rd.returns || strings.Contains(rd.name, "Inspect(true")) {
+					continue
+				}
+				got, clean, err := rd.run(file)
+				t.Events(1)
+				if !checkPrefix(rd, got, "ioerr:"+phase, j, l.complete[j]) {
+					continue
+				}
+				if clean {
+					t.ViolateD(rd.name+"/ioerr:"+phase+"/clean-end", map[string]any{"offset": j, "archive_len": len(file), "kind": kind, "blocks_delivered": len(got)},
+						"%s reports a clean end although its source failed with an I/O error at byte %d (%s) of a %s archive whose payload ends at %d", rd.name, j, phase, kind, pend)
+				} else if err == nil {
+					t.Violatef(rd.name+"/ioerr/no-error", "%s: neither clean end nor error", rd.name)
 				}
 			}
 		}
@@ -553,10 +684,20 @@ func c02Random(t *mon.T, d c02Desc, readers []c02Reader) {
 				if good, known := refcar.Verifies(c, g.Data); known && !good {
 					t.ViolateD(rd.name+"/random/returned-block-does-not-hash", map[string]any{"input": fmt.Sprintf("%x", in)},
 						"%s returned a block whose bytes do not hash to its CID on a random mutation", rd.name)
+				} else if !known && c02NoHasher(c.MhCode) {
+					t.ViolateD(rd.name+"/random/returned-block-under-unverifiable-hash-function", map[string]any{"input": fmt.Sprintf("%x", in), "hash_code": c.MhCode},
+						"%s returned a block whose CID names hash function %#x, for which no implementation exists", rd.name, c.MhCode)
 				}
 			}
 		}
 	}
+}
+
+// c02NoHasher: no hash implementation is registered for the code, so a verifying reader cannot
+// have verified a block carrying it (the reference does not know the function either).
+func c02NoHasher(code uint64) bool {
+	_, err := multihash.GetHasher(code)
+	return err != nil
 }
 
 func genC02(g *mon.G) {
@@ -567,6 +708,7 @@ func genC02(g *mon.G) {
 		for _, v2 := range []bool{false, true} {
 			g.Emit(c02Desc{Seed: s, V2: v2, Family: "cuts"})
 			g.Emit(c02Desc{Seed: s, V2: v2, Family: "flips", AllBits: g.Thorough()})
+			g.Emit(c02Desc{Seed: s, V2: v2, Family: "ioerr"})
 		}
 	}
 	for i := 0; i < g.Pick(100, 2000); i++ {
@@ -585,7 +727,7 @@ func init() {
 	Register(&mon.Check{
 		ID:          "C02",
 		Level:       "exploration",
-		Rule:        "cases = (seeded small valid archive, container kind, mutation family); family cuts = EVERY proper prefix of the archive, family flips = every byte with one seeded bit (quick) or all 8 bits (thorough), family random = 200 random mutations (hash oracle only); plus archives holding one section of 1 MiB+4 KiB / 2 MiB-1 / 2 MiB / 3 MiB (3- and 4-byte length varints) with every offset outside that block and ~30 sampled offsets inside it; each mutated input goes through 17 scanning readers (three of them with ZeroLengthSectionAsEOF on) (v2 BlockReader.Next on 3 source kinds, SkipNext on 2, Inspect(true|false), root CarReader, root LoadCar slow+batch); events_observed counts reader executions; non-trivial = every case (each holds ≥1 section)",
+		Rule:        "cases = (seeded small valid archive, container kind, mutation family); family cuts = EVERY proper prefix of the archive, family flips = every byte with one seeded bit (quick) or all 8 bits (thorough), family random = 200 random mutations (hash oracle only); family ioerr = the source itself fails with a non-EOF error on any access at or beyond offset j, for EVERY j inside the payload: readers that return or validate block bytes must not end cleanly and must deliver only complete, intact blocks; plus archives holding one section of 1 MiB+4 KiB / 2 MiB-1 / 2 MiB / 3 MiB (3- and 4-byte length varints) with every offset outside that block and ~30 sampled offsets inside it; each mutated input goes through 17 scanning readers (three of them with ZeroLengthSectionAsEOF on) (v2 BlockReader.Next on 3 source kinds, SkipNext on 2, Inspect(true|false), root CarReader, root LoadCar slow+batch); events_observed counts reader executions; non-trivial = every case (each holds ≥1 section)",
 		Assumptions: []string{"reference section table (refcar) decides where a cut/flip lands", "hashes recomputed with Go stdlib/x-crypto", "cuts at a section boundary and cuts after the end of a CARv2 payload are exempt from the truncation clause, as the property states"},
 		Gen:         genC02,
 		Run:         runC02,
@@ -594,6 +736,7 @@ func init() {
 			"cut:v2:in-v2-header": 50, "cut:v2:in-section-data": 50, "cut:v2:after-section-length-varint": 5,
 			"flip:v1:section-data": 100, "flip:v1:section-digest": 100, "flip:v2:section-data": 100, "flip:v2:section-digest": 100,
 			"random:blocks-returned": 100, "big-section-archives": 4,
+			"ioerr:v1:in-section-data": 50, "ioerr:v2:in-section-data": 50, "ioerr:v1:section-boundary": 5, "ioerr:v2:in-v2-header": 50,
 		},
 	})
 }
